@@ -5,6 +5,7 @@ import (
 	"fmt"
 	"os"
 	"path/filepath"
+	"strings"
 	"time"
 
 	"verif/sim/kernel"
@@ -26,6 +27,9 @@ func CheckC19(e *Env) (int, error) {
 	if err := e.RefSelfTest(binA); err != nil {
 		return 2, err
 	}
+	// a third configuration: assembly at GOAMD64=v3 takes the assembly side
+	// of the comparison in every second round
+	binV3, v3State := e.buildV3()
 	a := newAgg()
 	budget := budgetSeconds(e.Tier, 40, 840)
 	type key struct {
@@ -34,6 +38,7 @@ func CheckC19(e *Env) (int, error) {
 	}
 	digA, digP := map[key]string{}, map[key]string{}
 	jobFrom := map[key]int{}
+	asmSide := map[key]string{} // which assembly configuration ran this index
 	var lookup [128]byte
 	pairs := 0
 	var diverged []key
@@ -48,6 +53,10 @@ func CheckC19(e *Env) (int, error) {
 			break
 		}
 		var jobs []*Job
+		binA, asmVar := binA, "asm"
+		if binV3 != "" && round%2 == 1 {
+			binA, asmVar = binV3, simrunAsmV3.Name
+		}
 		for k := 0; k < 8; k++ {
 			pf := (round*8 + k) * poolPer
 			sf := (round*8 + k) * signPer
@@ -57,11 +66,11 @@ func CheckC19(e *Env) (int, error) {
 				extra = []string{"-trace"}
 			}
 			jobs = append(jobs,
-				&Job{Bin: binA, Variant: "asm", World: "pool", Prop: prop, From: pf, N: poolPer, Extra: extra},
+				&Job{Bin: binA, Variant: asmVar, World: "pool", Prop: prop, From: pf, N: poolPer, Extra: extra},
 				&Job{Bin: binP, Variant: "purego", World: "pool", Prop: prop, From: pf, N: poolPer},
-				&Job{Bin: binA, Variant: "asm", World: "sign", Prop: prop, From: sf, N: signPer},
+				&Job{Bin: binA, Variant: asmVar, World: "sign", Prop: prop, From: sf, N: signPer},
 				&Job{Bin: binP, Variant: "purego", World: "sign", Prop: prop, From: sf, N: signPer},
-				&Job{Bin: binA, Variant: "asm", World: "lookup", Prop: prop, From: lf, N: lookPer},
+				&Job{Bin: binA, Variant: asmVar, World: "lookup", Prop: prop, From: lf, N: lookPer},
 				&Job{Bin: binP, Variant: "purego", World: "lookup", Prop: prop, From: lf, N: lookPer})
 		}
 		e.RunJobs(jobs)
@@ -73,8 +82,9 @@ func CheckC19(e *Env) (int, error) {
 				a.add(prop, r)
 				k := key{r.World, r.Idx}
 				jobFrom[k] = j.From
-				if r.Variant == "asm" {
+				if r.Variant != "purego" {
 					digA[k] = r.Digest
+					asmSide[k] = r.Variant
 					if hs, ok := r.Cfg["lookup_cov"].(string); ok {
 						if b, err := hex.DecodeString(hs); err == nil {
 							for i := range b {
@@ -122,7 +132,11 @@ func CheckC19(e *Env) (int, error) {
 				best = k
 			}
 		}
-		path, v, err := e.reportDivergence(binA, binP, best.world, best.idx, jobFrom[best], digA[best], digP[best])
+		sideBin, sideVar := binA, "asm"
+		if asmSide[best] == simrunAsmV3.Name {
+			sideBin, sideVar = binV3, simrunAsmV3.Name
+		}
+		path, v, err := e.reportDivergence(sideBin, sideVar, binP, best.world, best.idx, jobFrom[best], digA[best], digP[best])
 		if err != nil {
 			return 2, err
 		}
@@ -138,6 +152,9 @@ func CheckC19(e *Env) (int, error) {
 	out, err := e.conclude(prop, a, func(r *kernel.Result) (string, string) {
 		if r.Variant == "purego" {
 			return binP, "purego"
+		}
+		if r.Variant == simrunAsmV3.Name {
+			return binV3, simrunAsmV3.Name
 		}
 		return binA, "asm"
 	}, budgetSeconds(e.Tier, 60, 300))
@@ -171,6 +188,7 @@ func CheckC19(e *Env) (int, error) {
 			return &Job{Bin: binA, Variant: "asm", World: "pool", Prop: prop, From: 0, N: 4, Extra: []string{"-trace"}}
 		}),
 		"history_pairs_compared":              pairs,
+		"goamd64_v3_configuration":            v3State + ": in every second round the assembly side of the comparison is built with GOAMD64=v3 (a tree may select other assembly by microarchitecture level; 'without the purego tag' covers that build too)",
 		"diverging_pairs":                     len(diverged),
 		"operations_executed":                 a.Ops,
 		"constant_time_lookup_windows_driven": cov,
@@ -199,7 +217,7 @@ func CheckC19(e *Env) (int, error) {
 
 // divergenceTrial replays a tape in both builds; ok iff the digests differ.
 func (e *Env) divergenceTrial(binA, binP string, rf *replay.File, t Tape, tag string) (bool, *kernel.Result, *kernel.Result) {
-	ra, _, err := e.replayOnce(binA, "asm", rf, t, nil, tag+"a")
+	ra, _, err := e.replayOnce(binA, strings.TrimSuffix(rf.Variant, "+purego"), rf, t, nil, tag+"a")
 	if err != nil || ra == nil {
 		return false, nil, nil
 	}
@@ -226,15 +244,15 @@ func firstDiff(a, b []string) (int, string, string) {
 	return -1, "", ""
 }
 
-func (e *Env) reportDivergence(binA, binP, world string, idx, jobFrom int, batchDigA, batchDigP string) (string, kernel.Violation, error) {
-	// record the tape (asm build)
-	j := &Job{Bin: binA, Variant: "asm", World: world, Prop: "C19", From: idx, N: 1, Extra: []string{"-tape"}}
+func (e *Env) reportDivergence(binA, asmVar, binP, world string, idx, jobFrom int, batchDigA, batchDigP string) (string, kernel.Violation, error) {
+	// record the tape (assembly build)
+	j := &Job{Bin: binA, Variant: asmVar, World: world, Prop: "C19", From: idx, N: 1, Extra: []string{"-tape"}}
 	e.runJob(j)
 	if j.Err != nil || len(j.Results) != 1 {
 		return "", kernel.Violation{}, harnessErr("could not record tape of %s#%d: %v", world, idx, j.Err)
 	}
 	rec := j.Results[0]
-	rf := &replay.File{Depth: e.Depth, Procs: 1, Property: "C19", World: world, Prop: "C19", Variant: "asm+purego", VerifSeed: e.Seed, Idx: idx, Tape: rec.Tape}
+	rf := &replay.File{Depth: e.Depth, Procs: 1, Property: "C19", World: world, Prop: "C19", Variant: asmVar + "+purego", VerifSeed: e.Seed, Idx: idx, Tape: rec.Tape}
 	ctr := 0
 	lock := make(chan struct{}, 1)
 	lock <- struct{}{}
@@ -277,7 +295,7 @@ search:
 		f := false
 		rf.Prefix, rf.Procs, rf.Reproduced = 0, 1, &f
 		v := kernel.Violation{Property: "C19", Class: "build-divergence", Key: world,
-			Detail: fmt.Sprintf("run %s#%d (job from %d) gave history digest %s in the assembly build and %s in the purego build; the difference was not reproduced in %d fresh-process replays of the tape (alone and after the job's earlier runs), so one build depends on state outside the tape", world, idx, jobFrom, batchDigA, batchDigP, 3*len(attempts))}
+			Detail: fmt.Sprintf("run %s#%d (job from %d) gave history digest %s in the assembly build ("+asmVar+") and %s in the purego build; the difference was not reproduced in %d fresh-process replays of the tape (alone and after the job's earlier runs), so one build depends on state outside the tape", world, idx, jobFrom, batchDigA, batchDigP, 3*len(attempts))}
 		rf.Violation = v
 		rf.Note = "observed, not reproduced"
 		dir := filepath.Join(e.VerifDir, "replays")
@@ -299,9 +317,9 @@ search:
 	if ra != nil && rp != nil {
 		i, x, y := firstDiff(ra.Trace, rp.Trace)
 		v.Step = i
-		v.Detail = fmt.Sprintf("the same tape gives different histories in the two builds; first differing record (#%d):\n  asm:    %s\n  purego: %s", i, x, y)
+		v.Detail = fmt.Sprintf("the same tape gives different histories in the two builds; first differing record (#%d):\n  %s: %s\n  purego: %s", i, asmVar, x, y)
 		// key on the operation name of the differing record
-		rf.Trace = append([]string{"--- asm build ---"}, ra.Trace...)
+		rf.Trace = append([]string{"--- assembly build (" + asmVar + ") ---"}, ra.Trace...)
 		rf.Trace = append(rf.Trace, "--- purego build ---")
 		rf.Trace = append(rf.Trace, rp.Trace...)
 		rf.Tape = small
